@@ -38,6 +38,10 @@ pub struct Config {
     pub clock: Clock,
     pub gate_bg: bool,
     pub gate_persist: bool,
+    /// every process first creates (and drops) an unrelated NoFsync instance, so that the
+    /// instance under test is not the one that decides the process-wide O_SYNC choice
+    #[serde(default)]
+    pub decoy_first: bool,
 }
 
 impl Config {
@@ -49,17 +53,19 @@ impl Config {
             clock: Clock::Forward,
             gate_bg: false,
             gate_persist: false,
+            decoy_first: false,
         }
     }
     pub fn label(&self) -> String {
         format!(
-            "{:?}/{:?}/{:?}/{:?}{}{}",
+            "{:?}/{:?}/{:?}/{:?}{}{}{}",
             self.cons,
             self.backend,
             self.fsync,
             self.clock,
             if self.gate_bg { "/bg-gated" } else { "" },
-            if self.gate_persist { "/persist-gated" } else { "" }
+            if self.gate_persist { "/persist-gated" } else { "" },
+            if self.decoy_first { "/second-instance-of-its-process" } else { "" }
         )
     }
 }
@@ -211,6 +217,9 @@ pub struct SchedOut {
     pub final_drain: Vec<Ent>,
     pub physical: Vec<Ent>,
     pub status: String,
+    /// results of the set-up ops (run sequentially before the threads start)
+    #[serde(default)]
+    pub setup_results: Vec<Res>,
 }
 
 /// One recorded durable mutation (paths relative to the job's root directory), or a
